@@ -268,10 +268,13 @@ func (e *engineA) finish() error {
 		el := atomic.LoadInt64(&e.ticks) - start
 		// the operator keeps the members' processes running: a node that exited
 		// on its own (e.g. it learnt of a removal that a later configuration
-		// has undone) is started again
+		// has undone) is started again. A node that was removed and added
+		// again with its old storage learns of its old removal once per
+		// restart (the commit index is not stored), each time one batch of
+		// entries further on, until it has passed the entry that adds it.
 		for _, id := range e.cl.nodeIDs() {
 			n := e.cl.node(id)
-			if atomic.LoadInt32(&n.exited) != 0 && !n.isCrashed() && !n.isStopped() && revived[id] < 3 {
+			if atomic.LoadInt32(&n.exited) != 0 && !n.isCrashed() && !n.isStopped() && revived[id] < 60 {
 				revived[id]++
 				if _, err := e.cl.start(id, n.dir); err != nil {
 					e.rc.emit(&ev.Rec{K: "restart-failed", Cid: e.cl.cid, Nid: id, Err: err.Error()})
